@@ -148,11 +148,15 @@ func alphabet(n, t int, full bool, scope string) []Ev {
 			add("partial-bad", "event_signing_partial_sign_received", reqPartial("batch-A", i, []requests.PartialSign{{MessageID: "msg-1"}}, tNorm))
 			add("partial-late", "event_signing_partial_sign_received", reqPartial("batch-A", i, signs, tLate))
 		}
-		add("sgn-error", "event_signing_partial_sign_error_received", reqSigError(i, strp("sign failed"), tNorm))
+		// a failure report names its batch (the repaired machine writes it); one without a batch is what an
+		// older version wrote; one naming another batch is a slow participant's late report
+		add("sgn-error", "event_signing_partial_sign_error_received", reqSigError(i, strp("sign failed"), tNorm, "batch-A"))
+		add("sgn-error-stale", "event_signing_partial_sign_error_received", reqSigError(i, strp("sign failed"), tNorm, "batch-B"))
 		if full {
-			add("sgn-error-nil", "event_signing_partial_sign_error_received", reqSigError(i, nil, tNorm))
+			add("sgn-error-unnamed", "event_signing_partial_sign_error_received", reqSigError(i, strp("sign failed"), tNorm, ""))
+			add("sgn-error-nil", "event_signing_partial_sign_error_received", reqSigError(i, nil, tNorm, "batch-A"))
 			// error texts are Go error / panic strings: control characters and DEL must survive the dump
-			add("sgn-error", "event_signing_partial_sign_error_received", reqSigError(i, strp("bad\x01text\x7f\v\a"), tNorm))
+			add("sgn-error", "event_signing_partial_sign_error_received", reqSigError(i, strp("bad\x01text\x7f\v\a"), tNorm, "batch-A"))
 		}
 	}
 	add("handover", "event_dkg_init_process", reqDefault(T(20)))
@@ -175,7 +179,7 @@ func alphabet(n, t int, full bool, scope string) []Ev {
 		add("confused", "event_sig_proposal_confirm_by_participant", reqData(0, 0, "data0-0", tNorm))
 		add("confused", "event_dkg_commit_confirm_received", reqData(1, 0, "data1-0", tNorm))
 		add("confused", "event_dkg_commit_confirm_received", reqPart(0, tNorm))
-		add("confused", "event_dkg_commit_confirm_canceled_by_error", reqSigError(0, strp("x"), tNorm))
+		add("confused", "event_dkg_commit_confirm_canceled_by_error", reqSigError(0, strp("x"), tNorm, ""))
 		add("confused", "event_signing_partial_sign_error_received", reqError(0, strp("x"), tNorm))
 		add("confused", "event_signing_start", reqPart(0, tNorm))
 		add("confused", "event_dkg_init_process", reqPart(0, tNorm))
